@@ -121,6 +121,13 @@ def check_bank(mtjs, order=None):
             if norm(g_b) != eg_b:
                 bad('grammar-mismatch', 'second grammar of a one-pass split: recorded %r, expected %r'
                     % ({f: l for f, l in norm(g_b).items() if eg_b.get(f) != l}, {f: l for f, l in eg_b.items() if norm(g_b).get(f) != l}))
+        elif order == 'refused':
+            # a refused tree in the middle of the history: before every tree, the same tree with one constituent emptied
+            # by hand is offered to the same grammar and lexicon; the refusal must leave both as they were
+            from ..bridge import refused_extract
+            for mt in mts:
+                refused_extract(mt, g, lex)
+                grammar.extract(build(mt), g, lex)
         elif order == 'snapshot':
             # a grammar that is used while it still grows: after every tree a binarized snapshot is taken
             # (deterministic and markovized; the results are dropped), then extraction goes on
@@ -212,7 +219,7 @@ def run_chunk(chunk):
         if chunk['kind'] == 'single':
             for sh, k in sweep.iter_shapes(chunk):
                 for mt in label_variants(sh, chunk['dev']):
-                    for order in (None, 'rev', 'export+raise', 'written', 'snapshot', 'two-grammars') + (('collapse',) if k else ()):
+                    for order in (None, 'rev', 'export+raise', 'written', 'snapshot', 'two-grammars', 'refused') + (('collapse',) if k else ()):
                         vs, nt = check_bank([mt.to_json()], order)
                         take(vs, nt, (mt.key(), order))
                 res.sample({'treebank': [model.mt_str(mt.root, mt.toks)]})
